@@ -49,8 +49,8 @@ def run_cfg(cfg):
     if cfg['perPointG'] and len(ratios) > 1:
         G = [2.0 / 15 if i == pos else (3.0 if i % 2 else 0.8) for i in range(len(ratios))]
     over = {'R_z': ROUGH[cfg['rough']], 'P_A': PA[cfg['pa']], 'R_m': 400.0}
-    res, extra = assess.assess(seq, ratios, over, G=G, single=(len(ratios) == 1 and not cfg.get('force_multi')))
-    return res[pos], {'sequence': seq, 'ratios': ratios, 'tracked_position': pos, 'G': G, **over}
+    res, extra = assess.assess(seq, ratios, over, G=G, single=(len(ratios) == 1 and not cfg.get('force_multi')), layout=cfg.get('layout', 'plain'))
+    return res[pos], {'sequence': seq, 'ratios': ratios, 'tracked_position': pos, 'G': G, 'layout': cfg.get('layout', 'plain'), **over}
 
 
 def mlog(x):
@@ -75,6 +75,8 @@ def apply_action(cfg, a, arg):
         c['trackedFirst'] = not cfg['trackedFirst']
     elif a == 'ToggleG':
         c['perPointG'] = not cfg['perPointG']
+    elif a == 'Relayout':
+        c['layout'] = arg
     elif a == 'Refine':
         c['refs'] = frozenset(cfg['refs']) | {arg}
     elif a == 'ScaleUp':
@@ -88,7 +90,7 @@ def apply_action(cfg, a, arg):
 
 def _walk(args):
     base, hist = args
-    cfg = {'base': base, 'refs': frozenset(), 'scale': 0, 'rough': 0, 'pa': 0, 'others': (), 'trackedFirst': True, 'perPointG': False}
+    cfg = {'base': base, 'refs': frozenset(), 'scale': 0, 'rough': 0, 'pa': 0, 'others': (), 'trackedFirst': True, 'perPointG': False, 'layout': 'plain'}
     try:
         o, info = run_cfg(cfg)
         trace = {'start': obs_record(o), 'events': []}
@@ -192,6 +194,11 @@ def run(chk):
         if b != 4:
             core.append((b, (('AddPoint', 2, 'same'), ('ToggleG', 0, 'same'), ('MoveTracked', 0, 'same'))))
             core.append((b, (('AddPoint', 5, 'same'), ('AddPoint', 1, 'same'), ('ToggleG', 0, 'same'))))
+            # the same batch handed over differently: G labelled independently of the node ids, unsorted node ids, rows node by node
+            core.append((b, (('AddPoint', 2, 'same'), ('ToggleG', 0, 'same'), ('Relayout', 'g_labels', 'same'))))
+            core.append((b, (('AddPoint', 5, 'same'), ('AddPoint', 1, 'same'), ('Relayout', 'scattered_ids', 'same'))))
+            core.append((b, (('AddPoint', 4, 'same'), ('AddPoint', 2, 'same'), ('Relayout', 'node_major', 'same'))))
+            core.append((b, (('Relayout', 'spliced_index', 'same'), ('Refine', 1, 'same'), ('Relayout', 'plain', 'same'))))
     known_walks = set(walks) | {(st_b, h) for st_b, h in core}      # core walks are states of the model at depth <= 3
     chosen = core + [w for w in chosen if w[0] != 4][: max(0, nwalk - len(core))]
     results = par.pmap(_walk, chosen, chunksize=1)
